@@ -119,6 +119,7 @@ func cmdVerify(args []string) {
 		bad += nf
 	}
 	if bad > 0 {
+		os.RemoveAll(work) // deferred calls do not run on os.Exit
 		os.Exit(1)
 	}
 }
